@@ -175,6 +175,71 @@ fn bprime_sanitize_small_domain() {
 }
 
 // ---------------------------------------------------------------------------
+// C12, tier B′: "every word that qualifies is left unchanged" across the geometry of the could-hit pre-filter (a table of
+// 2^11 bits indexed by bits 21..31 of the address, i.e. periodic in 4 GiB): ONE executable mapping in every position
+// relative to a 2 MiB bucket edge and to a 4 GiB period edge (before, straddling, after, exactly on, larger than a
+// period), and for each every word among {start-1, start, start+1, middle, edge-1, edge, end-1, end, the same addresses
+// one period higher (aliases)}; two words per stack so that the last-hit cache is exercised in both orders.
+// Reference predicate from the statement: unchanged iff small integer, inside the stack mapping or inside the
+// executable mapping; otherwise the sentinel.
+// ---------------------------------------------------------------------------
+#[test]
+fn bprime_sanitize_mapping_geometry() {
+    const S: usize = 0x7ffd_0000_0000; // stack mapping [S, S+0x2000)
+    const G: usize = 1 << 32;          // period of the pre-filter
+    const B: usize = 1 << 21;          // one bucket
+    let defaced = 0x0defaced0defacedusize;
+    let base = 0x7f00_0000_0000usize;  // a multiple of G
+    assert_eq!(base % G, 0);
+    // (start, size) of the executable mapping
+    let geoms: [(usize, usize); 10] = [
+        (base + 5 * B + 0x1000, 0x3000),            // inside one bucket
+        (base + 6 * B - 0x1000, 0x2000),            // straddles a bucket edge
+        (base + 6 * B, 0x1000),                     // starts exactly on a bucket edge
+        (base + 6 * B - 0x1000, 0x1000),            // ends exactly on a bucket edge
+        (base - 0x10_0000, 0x20_0000),              // straddles a period edge (2 MiB)
+        (base - 0x1000, 0x2000),                    // straddles a period edge (2 pages)
+        (base - 0x1000, 0x1000),                    // ends exactly on a period edge
+        (base, 0x1000),                             // starts exactly on a period edge
+        (base + 3 * B, G + 2 * B),                  // larger than a period
+        (base + G - B, 3 * B),                      // three buckets across a period edge
+    ];
+    let mut n = 0usize;
+    for (xs, xl) in geoms {
+        let xe = xs + xl;
+        let d = bare_dumper(vec![
+            mapping(S, 0x2000, MMPermissions::READ | MMPermissions::WRITE),
+            mapping(xs, xl, MMPermissions::READ | MMPermissions::EXECUTE),
+        ]);
+        let edge = (xs / G + 1) * G; // the next period edge above the start
+        let mut words = vec![xs - 1, xs, xs + 1, xs + xl / 2, xe - 1, xe, xe + 1, edge - 1, edge, edge + 1, xs - B, xe + B];
+        let alias: Vec<usize> = words.iter().map(|w| w + G).chain(words.iter().map(|w| w - G)).collect();
+        words.extend(alias);
+        let qualifies = |w: usize| -> bool {
+            let s = w as isize;
+            (-4096..=4096).contains(&s) || (S..S + 0x2000).contains(&w) || (xs..xe).contains(&w)
+        };
+        for &w0 in &words {
+            for &w1 in &words {
+                let mut input = Vec::new();
+                input.extend_from_slice(&w0.to_ne_bytes());
+                input.extend_from_slice(&w1.to_ne_bytes());
+                let mut out = input.clone();
+                d.sanitize_stack_copy(&mut out, S + 0x100, 0).expect("no failure mode");
+                n += 1;
+                for (k, w) in [(0usize, w0), (8, w1)] {
+                    let o = usize::from_ne_bytes(out[k..k + 8].try_into().unwrap());
+                    let want = if qualifies(w) { w } else { defaced };
+                    assert_eq!(o, want, "word {w:#x} at offset {k} with the executable mapping [{xs:#x}, {xe:#x}) (w0={w0:#x} w1={w1:#x})");
+                }
+            }
+        }
+        std::mem::forget(d);
+    }
+    println!("BPRIME evaluations={n}");
+}
+
+// ---------------------------------------------------------------------------
 // C04 / C15, tier B′ (native, this process as the target): enumerate_threads lists every thread of the
 // process exactly once with the name the kernel reports (trailing newline removed, nothing else).
 // Domain: 6 helper threads with names covering length 0..15, leading/inner whitespace and non-ASCII.
